@@ -507,6 +507,29 @@ func scenarioC08(r *Run) {
 				r.Probe("pfd-request-with-truncated-contents-not-accepted")
 				continue
 			}
+			if rejectAt >= 0 && len(apps) > 0 && r.Ch.Choose(2, "reject-kind") == 1 {
+				// the last application of the request names an application of the CURRENT
+				// table and carries PFD Contents without a flow description: refused as a
+				// whole - and the current table, that application included, stays
+				ids := sortedKeys(apps)
+				victim := ids[r.Ch.Choose(len(ids), "reject-names")]
+				ies2 := append(append([]*ie.IE{}, ies...), ie.NewApplicationIDsPFDs(ie.NewApplicationID(victim), ie.NewPFDContext(ie.NewPFDContents("", "", "", "", "", nil, nil, nil))))
+				req2 := message.NewPFDManagementRequest(seq, ies2...)
+				rx = p.Request(req2, 5e9)
+				r.Fault("pfd-request-refused-naming-a-provisioned-application")
+				if rx == nil {
+					r.Violate("C08", "pfd-request-unanswered", "PFD Management Request got no response")
+					return
+				}
+				c, _ := CauseOf(rx.Msg)
+				r.Op("PFD management whose last application (%s, provisioned) has no flow description -> accepted=%v", victim, c == ie.CauseRequestAccepted)
+				r.Skel(fmt.Sprintf("pfd:no-flow-desc:%v", c == ie.CauseRequestAccepted))
+				if c == ie.CauseRequestAccepted {
+					r.Inconclusive++ // (accepted: the table is whatever the agent made of it)
+					return
+				}
+				continue
+			}
 			if rejectAt >= 0 {
 				// make the last element unusable on the wire: strip its Application ID child
 				// (independent TLV codec), so the request must be rejected as a whole
@@ -611,6 +634,10 @@ func scenarioC08(r *Run) {
 			r.Op("establish with application id %s on the %s PDR -> accepted=%v; provisioned: %v", id, map[bool]string{true: "uplink", false: "downlink"}[uplink], res.Accepted, flowTexts(apps[id]))
 			r.Skel(fmt.Sprintf("app:%v:%v", uplink, res.Accepted))
 			if !res.Accepted {
+				if res.Rx != nil && r.AgentAlive() {
+					r.Violate("C08", "provisioned-application-unknown", "PDR %d names application %s, which the last accepted PFD Management Request provisioned (%v), and the establishment was refused with cause %d", pd.ID, id, flowTexts(apps[id]), res.Cause)
+					return
+				}
 				continue
 			}
 			r.Accepted++
